@@ -65,7 +65,14 @@ def classify(case, detail):
             r"printOperation planner id: \d+: validation failed: external: Fragment cannot be spread here as objects of type "
             r"\S+ can never be of type ", detail):
         return "rewrite-keeps-fragment-impossible-under-narrowed-field"
-    m = DIAG.search(detail) if clause == "data_equal" else None
+    # a datasource planner receives a field / inline fragment whose parent selection set it was never given: its node
+    # stack holds a field where a selection set is expected and ast.AddSelection indexes out of range
+    if clause == "no_panic" and "(id " in case and "covariant" in case.split("(sum", 1)[0] and re.search(
+            r"index out of range \[\d+\] with length \d+ \| frames: pkg/ast\.\(\*Document\)\.AddSelection <- "
+            r"pkg/engine/datasource/graphql_datasource\.\(\*Planner\[\.\.\.\]\)\.(addField|addTypenameToSelectionSet) <- ", detail):
+        return "datasource-planner-add-selection-out-of-range"
+    # (a difference in data may come with errors on the gateway's side only: nulled non-null positions)
+    m = DIAG.search(detail) if clause == "data_equal" or (clause == "errors_iff" and "gateway=true reference=false" in detail) else None
     if m and "(covfield t)" in case:
         position, ncombos, combos, fields, aliases = m.groups()
         # abstract_selection_field_alias.go aliased a composite response key on the way to the diverging position in
@@ -187,7 +194,8 @@ def run(chk):
     skip = ("conflict because they return conflicting types|not provided on this path|has field waiting for dependency"
             "|rq[0-9_]+: null vs|gateway errors=true reference errors=false"
             "|Fragment cannot be spread here as objects of type|upstream merge aliases .__internal_merge"
-            "|selected under ([2-9]|[0-9][0-9]+) condition combination.s. .[^}]*.; plan fields .[^}|]*parentOn=")
+            "|frames: pkg/ast...Document..AddSelection"
+            "|selected under ([2-9]|[0-9][0-9]+) condition combination.*; plan fields .[^|]*parentOn=")
     state, samples, allcases = {}, [], []
     corpus = os.path.join(vlib.ROOT, "corpus", "C01")
     if glob.glob(os.path.join(corpus, "*.json")):
